@@ -278,6 +278,22 @@ def gen_atten(tier, rng):
             c = mk(xs, ts, check, st, ft, tp, None, None)
             c["wide"] = True
             cases.append(c)
+    # the standard deviation of values far from zero (2^30 + small steps; every value a float exactly): the spread is
+    # that of the small steps - thresholds a factor 4 away from every spread, so that only a formula that cancels
+    # catastrophically (E[x^2] - E[x]^2) gets it wrong
+    for _ in range(60 if tier == "quick" else 600):
+        off = F(rng.choice([2 ** 30, -(2 ** 31), 10 ** 9]))
+        n = rng.randint(3, 7)
+        xs = [None if rng.random() < 0.1 else off + rng.choice([F(0), F(1), F(3), F(1, 2), F(2)]) for _ in range(n)]
+        ts = list(range(n))
+        tp = rng.choice([None, None, 2, 3])
+        sp = [v for v in spreads(xs, ts, "std", tp) if v]
+        if not sp:
+            continue
+        lo, hi = F(dyadic(math.sqrt(min(sp)))) / 4, F(dyadic(math.sqrt(max(sp)))) * 4
+        for st, ft in ((hi, lo), (lo, lo / 2), (hi * 2, hi)):
+            if lo > 0:
+                cases.append(mk(xs, ts, "std", st, ft, tp, None, None))
     # decimal sub-second steps (10 Hz, 5 Hz, 0.3 s): the step is not a binary fraction, so the code's float quotient
     # min_period / step is only kept where true division followed by truncation gives the exact count (checked
     # here in the same float arithmetic) - there the property fixes the count, and a different float recipe
